@@ -160,6 +160,11 @@ def Target.entityOf : Target → Nat
   | .attr a => a.entity
   | .obj o => o.entity
 
+/-- `isinstance(x, Attribute) and x.hidden` -/
+def Target.hidden : Target → Bool
+  | .attr a => a.hidden
+  | _ => false
+
 /-- the part of `has_perm` after the cache miss -/
 def decide (env : Env) (user : User) (perm : String) (x : Target) (ar : List Rule) : Bool :=
   let ug := getUserGroups env user
@@ -172,8 +177,7 @@ def decide (env : Env) (user : User) (perm : String) (x : Target) (ar : List Rul
 
 /-- `has_perm(user, perm, x)` with the session's `perm_cache` threaded through -/
 def hasPermC (env : Env) (c : Cache) (user : User) (perm : String) (x : Target) : Bool × Cache :=
-  let hidden := match x with | .attr a => a.hidden | _ => false
-  if hidden then (false, c)                                             -- `if x.hidden: return False`
+  if x.hidden then (false, c)                                           -- `if x.hidden: return False`
   else
     let ar := accessRules env.rules x.entityOf perm
     if ar.isEmpty then (false, c)                                       -- `if not access_rules: return False`
